@@ -58,6 +58,14 @@ def run(ctx):
                           "fmt": [ctx.rng.choice(["C", "C", "U"]) for _ in range(k)]})
         if k == 2:
             cases.append({"kind": "nary", "op": "lf", "ops": ops, "emb": ctx.rng.choice(["fiber", "tensor1"]), "fmt": [ctx.rng.choice(["C", "U"]), ctx.rng.choice(["C", "U"])]})
+    # n-ary forms with an operand whose rank is declared uncompressed and that stores nothing (or only explicit defaults): it still presents its whole range
+    for k in (2, 3):
+        for first in ({"k": "F", "e": []}, {"k": "F", "e": [[1, {"k": "L", "v": 0}], [3, {"k": "L", "v": 0}]]}):
+            for op in ("intersection", "lf", "union"):
+                for pos in range(k):
+                    ops = [rand_tree(ctx.rng, 6, pabs=0.3, pz=0.1) for _ in range(k)]
+                    ops[pos] = first
+                    cases.append({"kind": "nary", "op": op, "ops": ops, "emb": ctx.rng.choice(["fiber", "tensor1"]), "fmt": ["U" if j == pos else "C" for j in range(k)]})
     # a - b with b the lazy result of another co-iteration (differences of intersections)
     for c in list(cases):
         if c["kind"] == "pair" and c["op"] == "sub" and c.get("fmt", ["C", "C"])[1] == "C" and ctx.rng.random() < 0.3:
